@@ -2007,6 +2007,11 @@ impl<'a> Model<'a> {
             if self.subs[si].c12_checked {
                 continue;
             }
+            // a consumer that the harness holds at a stall point (a client that does not read)
+            // cannot notice anything: judge at the first quiescent point at which nothing is held
+            if self.stalled_now > 0 {
+                continue;
+            }
             self.subs[si].c12_checked = true;
             let name = self.subs[si].name.clone();
             let cons: Vec<CallId> = self.subs[si].consumers.iter().cloned().collect();
